@@ -134,6 +134,8 @@ def str_method(I, ctx, meth, s, args, callee, crate):
     if meth == "starts_with":
         p = I.deref(ctx, args[1])
         if isinstance(p, str): return ctx.str_starts_with(s, p)
+    if meth == "eq_ignore_ascii_case":
+        return ctx.str_eq_nocase(s, I.deref(ctx, args[1]))
     if meth == "strip_prefix":
         # same two primitives the contracts use by hand (`starts_with` then `get(n..)`)
         p = I.deref(ctx, args[1])
